@@ -239,7 +239,21 @@ def c10(run):
         "response pattern (R-REPLY-ONCE).")
 
 
+def c09(run):
+    from rules import r_relonce
+    P = run.prog('rel')
+    r_relonce.run(run, P)
+    run.min_instances('R-RELEASE-ONCE', 5)
+    run.assumptions = ASSUME_COMMON + ["body integrity, tiling, at-most-once delivery, token hiding and size fitting (arithmetic over runtime lengths and schedules) are NOT decided",
+                                       "paths on which taking the global lock fails carry no obligations"]
+    return run.finish(
+        "One clause of C09 is decided: 'the sender's release callback runs exactly once'. For every function taking a release_func parameter, on "
+        "every path with release_func not known NULL the callback is called exactly once, handed to a callee with the same obligation, or stored "
+        "into an lg_xmit that is linked into session->lg_xmit or deleted; coap_block_delete_lg_xmit calls it exactly once (R-RELEASE-ONCE).")
+
+
 PROPS = {
+    'C09': c09,
     'C10': c10,
     'C06': c06,
     'C08': c08,
